@@ -38,7 +38,7 @@ def r1():
 def main():
     n = r1()
     print(f"selfcheck: R1 ok ({n} membership comparisons)")
-    for name in ("r3", "r4", "r5", "r2"):
+    for name in ("r3", "r4", "r5", "r7"):
         try:
             mod = __import__(f"islamon.selfcheck_{name}", fromlist=["main"])
         except ImportError:
